@@ -23,7 +23,8 @@ RULE = ('cases = match sequence of length 0..8 (seeded data sets, any mix of FF0
         'handler timing {instant, delayed} x variant {patient root, study root, worklist, c_find '
         'wrapper} x final status {success from the real SCP; failure / cancel / warning from a '
         'scripted SCP} x schedule {uniform; user thread far ahead of its provider thread; '
-        'stalls}; non-trivial = >= 2 matches; distinct = distinct scheduler signatures')
+        'stalls}; non-trivial = >= 2 matches; distinct = distinct scheduler signatures'
+        '; hot family (concurrent query users, pre-emption in the encoders); 25 % with a file-backed C-STORE before the query; 30 % with a handler that re-yields one data set object')
 ASSUMPTIONS = ['data sets compared by their implicit-VR-LE re-encoding (pydicom trusted for data '
                'sets)', 'stalls capped below the library\'s own timeouts']
 
